@@ -53,6 +53,8 @@ class Report(object):
         self.rule = ""
         self.machinery_errors = []
         self.outdir = os.path.join(OUT, pid)
+        import shutil
+        shutil.rmtree(os.path.join(self.outdir, "replay"), ignore_errors=True)
         os.makedirs(os.path.join(self.outdir, "replay"), exist_ok=True)
 
     # ---- TLC bookkeeping
